@@ -5,6 +5,8 @@ From Coq Require Import List Bool Arith Lia.
 Import ListNotations.
 From ZV Require Import Base.Bytes C35.Types C35.Unify C35.Generated C35.Spec.
 
+Local Opaque fuel.
+
 (* ------------------------------------------------------------------ equality tests *)
 Lemma beq_refl' c : beq c c = true.
 Proof. unfold beq. apply Byte.byte_dec_lb. reflexivity. Qed.
@@ -149,7 +151,7 @@ Section Resolver.
   Lemma resolve_spec roots St : resolve w roots = Some St -> forall x, In x St <-> Reach w roots x.
   Proof.
     unfold resolve. destruct (closedb w (iter w fuel (add_all roots []))) eqn:Ec; [|discriminate].
-    intros E. inversion E; subst St. clear E. apply closedb_closed in Ec. intros x. split.
+    intros E. injection E as E. subst St. apply closedb_closed in Ec. intros x. split.
     - apply iter_sound. intros y Hy. apply add_all_In in Hy as [Hy|[]]. now apply reach_root.
     - apply closed_complete; [assumption|]. intros y Hy. apply iter_incl. apply add_all_In. now left.
   Qed.
@@ -255,13 +257,12 @@ Proof.
     subst p. cbn [fst] in E. subst u'. cbn [snd]. unfold closure1.
     pose proof table_ok_true as Hok. unfold table_ok in Hok. rewrite forallb_forall in Hok. specialize (Hok u Hu).
     destruct (resolve crates [u]) as [St|] eqn:Er; [|discriminate]. now apply (resolve_spec crates no_weak).
-  - exfalso. apply (find_none _ _ Ef (u, closure1 u)).
-    + unfold table. apply in_map_iff. exists u. auto.
-    + cbn [fst]. now apply fact_eqb_iff.
+  - exfalso. assert (Hin : In (u, closure1 u) table) by (unfold table; apply in_map_iff; exists u; auto).
+    pose proof (find_none _ _ Ef _ Hin) as Hf. cbn [fst] in Hf.
+    assert (Ht : fact_eqb u u = true) by (now apply fact_eqb_iff). congruence.
 Qed.
 
 (* the universe: everything any selection can reach *)
-Definition universe : list fact := match resolve crates all_roots with Some St => St | None => [] end.
 Lemma universe_ok : (match resolve crates all_roots with Some St => closedb crates St && (length St <? fuel) | None => false end) = true.
 Proof. vm_compute. reflexivity. Qed.
 
@@ -271,7 +272,7 @@ Proof.
   destruct (resolve crates all_roots) as [U|] eqn:Er; [|discriminate].
   apply andb_true_iff in Hu as [Hc Hl]. apply Nat.ltb_lt in Hl. apply (closedb_closed crates no_weak) in Hc.
   apply (resolve_total crates no_weak U); [assumption| |assumption].
-  intros x Hx. apply (resolve_spec crates no_weak _ _ Er). apply reach_root. now apply wf_roots.
+  intros x Hx. apply (resolve_spec crates no_weak _ _ Er). apply reach_root. exact (wf_roots sel Hwf x Hx).
 Qed.
 
 (* ------------------------------------------------------------------ (C) coherence of every selection from a finite table *)
@@ -286,17 +287,20 @@ Definition concl (r : rule) (k : kind) : fact := on_fact (fst (r_then r)) (see c
 Lemma rule_holds_facts St k r : rule_holds St k r = negb (mem (prem r k) St) || mem (concl r k) St.
 Proof. unfold rule_holds, prem, concl. now rewrite !on_mem. Qed.
 
-(* for every pair of single requests u1 (bringing the premise) and u2 (bringing the unit), an unknown rule is satisfied
-   already inside the closure of u1 or u2 *)
-Definition pair_ok_in (tbl : list (fact * list fact)) (p : rule -> bool) (u1 u2 : fact) (r : rule) (k : kind) : bool :=
-  p r || negb (mem (prem r k) (lookup_in tbl u1)) || negb (mem (FP (r_unit r) k) (lookup_in tbl u2))
-  || mem (concl r k) (lookup_in tbl u1) || mem (concl r k) (lookup_in tbl u2).
+(* for every pair of single requests u1 (bringing the premise) and u2 (bringing the unit), a rule outside p is satisfied
+   already inside the closure of u1 or of u2.  (`if` rather than `||`: vm_compute is strict, the inner loop runs only for
+   the few u1 that reach a premise; the table and the roots are let-bound so that they are evaluated once) *)
+Definition row_ok (tbl : list (fact * list fact)) (roots : list fact) (p : rule -> bool) (u1 : fact) (r : rule) (k : kind) : bool :=
+  if p r then true else
+  let T1 := lookup_in tbl u1 in
+  if negb (mem (prem r k) T1) then true else
+  if mem (concl r k) T1 then true else
+  forallb (fun u2 => let T2 := lookup_in tbl u2 in
+                     if negb (mem (FP (r_unit r) k) T2) then true else mem (concl r k) T2) roots.
 Definition table_coherent_in (tbl : list (fact * list fact)) (roots : list fact) (p : rule -> bool) : bool :=
-  forallb (fun u1 => forallb (fun u2 => forallb (fun r => pair_ok_in tbl p u1 u2 r KT && pair_ok_in tbl p u1 u2 r KH) rules) roots) roots.
-(* (the table and the roots are bound once so that vm_compute evaluates them once) *)
+  forallb (fun u1 => forallb (fun r => row_ok tbl roots p u1 r KT && row_ok tbl roots p u1 r KH) rules) roots.
 Definition table_coherent (p : rule -> bool) : bool :=
   let tbl := table in let roots := all_roots in table_coherent_in tbl roots p.
-Definition pair_ok := pair_ok_in table.
 
 Lemma table_coherent_known : table_coherent Known_C35 = true.
 Proof. vm_compute. reflexivity. Qed.
@@ -310,7 +314,7 @@ Proof.
   pose proof (resolve_spec crates no_weak _ _ Er) as Hspec.
   assert (Hsub : forall u x, In u (init crates sel) -> In x (lookup u) -> In x St).
   { intros u x Hu' Hx. apply Hspec. apply (reach_mono crates [u]); [intros z [->|[]]; assumption|].
-    apply lookup_spec; [now apply Hroots|assumption]. }
+    destruct (lookup_spec u (Hroots u Hu') x) as [H1 _]. exact (H1 Hx). }
   assert (Hunit : In (FP (r_unit r) k) St).
   { unfold units in Hu. apply in_flat_map in Hu as [x [Hx Hin]]. destruct x as [c' k'|]; [|destruct Hin].
     destruct (find_crate crates c'); [|destruct Hin]. destruct Hin as [E|[]]. inversion E; subst c' k'.
@@ -320,14 +324,18 @@ Proof.
   apply mem_In in Ep. apply mem_false in Ec.
   apply Hspec in Ep. apply (reach_split crates) in Ep as [u1 [Hu1 Hp1]].
   apply Hspec in Hunit. apply (reach_split crates) in Hunit as [u2 [Hu2 Hp2]].
-  apply (lookup_spec u1 (Hroots _ Hu1)) in Hp1. apply (lookup_spec u2 (Hroots _ Hu2)) in Hp2.
+  destruct (lookup_spec u1 (Hroots _ Hu1) (prem r k)) as [_ H1]. apply H1 in Hp1. clear H1.
+  destruct (lookup_spec u2 (Hroots _ Hu2) (FP (r_unit r) k)) as [_ H2]. apply H2 in Hp2. clear H2.
   unfold table_coherent, table_coherent_in in Ht. cbv zeta in Ht. rewrite forallb_forall in Ht. specialize (Ht u1 (Hroots _ Hu1)).
-  rewrite forallb_forall in Ht. specialize (Ht u2 (Hroots _ Hu2)).
   rewrite forallb_forall in Ht. specialize (Ht r Hr). apply andb_true_iff in Ht as [HtT HtH].
-  assert (Hk : pair_ok p u1 u2 r k = true) by (destruct k; assumption).
-  unfold pair_ok, pair_ok_in in Hk. fold (lookup u1) in Hk. fold (lookup u2) in Hk. rewrite Hp in Hk. rewrite orb_false_l in Hk.
-  apply mem_In in Hp1. apply mem_In in Hp2. rewrite Hp1, Hp2 in Hk. cbn [negb orb] in Hk.
-  apply orb_true_iff in Hk as [Hk|Hk]; apply mem_In in Hk; apply Ec; eapply Hsub; eauto.
+  assert (Hk : row_ok table all_roots p u1 r k = true) by (destruct k; assumption).
+  unfold row_ok in Hk. cbv zeta in Hk. fold (lookup u1) in Hk. rewrite Hp in Hk.
+  apply mem_In in Hp1. rewrite Hp1 in Hk. cbn [negb] in Hk.
+  destruct (mem (concl r k) (lookup u1)) eqn:Ec1.
+  - apply mem_In in Ec1. apply Ec. exact (Hsub u1 _ Hu1 Ec1).
+  - rewrite forallb_forall in Hk. specialize (Hk u2 (Hroots _ Hu2)). fold (lookup u2) in Hk.
+    apply mem_In in Hp2. rewrite Hp2 in Hk. cbn [negb] in Hk. apply mem_In in Hk.
+    apply Ec. exact (Hsub u2 _ Hu2 Hk).
 Qed.
 
 (* ---- the theorems of Properties/C35.v *)
@@ -349,7 +357,7 @@ Proof.
   specialize (Hm r Hr).
   destruct (rule_applies u r) eqn:Ea; [|reflexivity]. cbn.
   destruct (rule_holds St (snd u) r) eqn:Eh; [reflexivity|exfalso].
-  cbn in Hm. rewrite orb_false_r in Hm.
+  change (negb true) with false in Hm. rewrite !orb_false_r in Hm.
   unfold known_class, violated in Hk.
   assert (Hx : existsb (fun u0 => existsb (fun r0 => Known_C35 r0 && rule_applies u0 r0 && negb (rule_holds St (snd u0) r0)) rules)
                        (units crates St) = true).
